@@ -1720,6 +1720,9 @@ class Container:
             raise ValueError("Quantity must be positive.")
         if quantity_unit not in ('L', 'g', 'mol'):
             raise ValueError("We can only fill to mass or volume.")
+        if solvent.is_enzyme() and quantity_unit == 'mol':
+            # (whatever the target: also one the container has reached already, where nothing would be added)
+            raise ValueError("An enzyme cannot be measured in moles.")
 
         current_quantity = sum(Unit.convert_from(substance, value,
                                                  'U' if substance.is_enzyme() else config.moles_storage_unit,
